@@ -2,7 +2,7 @@
 From Coq Require Import List NArith ZArith Bool Lia.
 From Common Require Import Bytes Outcome.
 From Gen Require Import C08.
-From C08 Require Import Model ModelCD ModelLL Proofs Proofs_cd Proofs_ll Proofs_ll3 Proofs_ll4.
+From C08 Require Import Model ModelCD ModelLL ModelSub Proofs Proofs_cd Proofs_ll Proofs_ll3 Proofs_ll4 Proofs_sub.
 Import ListNotations.
 Local Open Scope N_scope.
 
@@ -176,3 +176,113 @@ Theorem lookuplist_lookup_offsets_fit :
     M_ll_layout ll = Ok L -> find_pos KTable t 0 L 0 = Some q -> q <= 65535.
 Proof. intros ll L t q HL. apply (tables_fit ll L t q). apply layout_shape_of. exact HL. Qed.
 Print Assumptions lookuplist_lookup_offsets_fit.
+
+(* ---------------- value records (gtab/valuerecord.go) ---------------- *)
+
+(* encodeLen(format) = |encode(format)| for every format getFormat can produce
+   (bits 0..7) *)
+Theorem valuerecord_len_agrees :
+  forall (fmt : N) (v : option vrec), fmt < 256 ->
+    lenN (M_vr_encode fmt v) = M_vr_encode_len fmt.
+Proof. exact vr_len_agrees. Qed.
+Print Assumptions valuerecord_len_agrees.
+
+(* a record (nil included) comes back unchanged through its own format *)
+Theorem valuerecord_roundtrip :
+  forall (v : option vrec) (rest : list N), vr_ok v ->
+    M_vr_read (M_vr_format v) (M_vr_encode (M_vr_format v) v ++ rest) = Ok (v, rest).
+Proof. exact vr_roundtrip_own. Qed.
+Print Assumptions valuerecord_roundtrip.
+
+(* through any format that has a bit for every non-zero field (the union
+   format of GPOS 1.2 / 2.1) the record comes back up to nil = all-zero: nil
+   exactly when the format is 0 *)
+Theorem valuerecord_roundtrip_common_format :
+  forall (fmt : N) (v : option vrec) (rest : list N), vr_ok v -> vr_covers fmt v ->
+    M_vr_read fmt (M_vr_encode fmt v ++ rest) = Ok (vr_norm fmt v, rest).
+Proof. exact vr_read_encode. Qed.
+Print Assumptions valuerecord_roundtrip_common_format.
+
+(* ---------------- subtables ---------------- *)
+(* Well-formed = valid coverage (strictly increasing 16-bit glyph list, index
+   = rank) and one array entry per covered glyph.  The models mirror the code
+   with fixes/C08-subtable-offset-guards.diff applied: a coverage offset (or
+   value count) that does not fit 16 bits makes encode panic; before the
+   repair it was truncated silently (GSUB 1.2 with more than 32764 glyphs was
+   unreadable).  "= Ok b" below therefore excludes exactly the refused inputs. *)
+
+Theorem gsub1_1_len_agrees :
+  forall gl delta b, glyphs_ok gl = true ->
+    M_gsub11_encode gl delta = Ok b -> M_gsub11_len gl = Ok (lenN b).
+Proof. exact gsub11_len_agrees. Qed.
+
+Theorem gsub1_1_roundtrip :
+  forall gl delta b pre post,
+    strictly_inc gl = true -> glyphs_ok gl = true -> delta < 65536 ->
+    M_gsub11_encode gl delta = Ok b ->
+    M_gsub11_read (pre ++ b ++ post) (lenN pre) = Ok (gl, delta).
+Proof. exact gsub11_roundtrip. Qed.
+Print Assumptions gsub1_1_roundtrip.
+
+Theorem gsub1_2_len_agrees :
+  forall gl subst b, glyphs_ok gl = true ->
+    M_gsub12_encode (S_cov_table gl) subst = Ok b -> M_gsub12_len (S_cov_table gl) subst = Ok (lenN b).
+Proof. exact gsub12_len_agrees. Qed.
+
+Theorem gsub1_2_roundtrip :
+  forall gl subst b pre post,
+    strictly_inc gl = true -> glyphs_ok gl = true -> gids_ok subst -> length subst = length gl ->
+    M_gsub12_encode (S_cov_table gl) subst = Ok b ->
+    M_gsub12_read (pre ++ b ++ post) (lenN pre) = Ok (S_cov_pairs gl, subst).
+Proof. exact gsub12_roundtrip. Qed.
+Print Assumptions gsub1_2_roundtrip.
+
+(* GSUB 2.1 (Repl) and GSUB 3.1 (Alternates) share layout, writer and reader *)
+Theorem gsub2_1_3_1_len_agrees :
+  forall gl seqs b, glyphs_ok gl = true ->
+    M_gsubseq_encode (S_cov_table gl) seqs = Ok b -> M_gsubseq_len (S_cov_table gl) seqs = Ok (lenN b).
+Proof. exact gsubseq_len_agrees. Qed.
+
+Theorem gsub2_1_3_1_roundtrip :
+  forall gl seqs b pre post,
+    strictly_inc gl = true -> glyphs_ok gl = true -> Forall seq_ok seqs -> length seqs = length gl ->
+    M_gsubseq_encode (S_cov_table gl) seqs = Ok b ->
+    M_gsubseq_read (pre ++ b ++ post) (lenN pre) = Ok (S_cov_pairs gl, seqs).
+Proof. exact gsubseq_roundtrip. Qed.
+Print Assumptions gsub2_1_3_1_roundtrip.
+
+Theorem gpos1_1_len_agrees :
+  forall gl adj b, glyphs_ok gl = true ->
+    M_gpos11_encode (S_cov_table gl) adj = Ok b -> M_gpos11_len (S_cov_table gl) adj = Ok (lenN b).
+Proof. exact gpos11_len_agrees. Qed.
+
+Theorem gpos1_1_roundtrip :
+  forall gl adj b pre post,
+    strictly_inc gl = true -> glyphs_ok gl = true -> vr_ok adj ->
+    M_gpos11_encode (S_cov_table gl) adj = Ok b ->
+    M_gpos11_read (pre ++ b ++ post) (lenN pre) = Ok (S_cov_pairs gl, adj).
+Proof. exact gpos11_roundtrip. Qed.
+Print Assumptions gpos1_1_roundtrip.
+
+Theorem gpos1_2_len_agrees :
+  forall gl adj b, glyphs_ok gl = true ->
+    M_gpos12_encode (S_cov_table gl) adj = Ok b -> M_gpos12_len (S_cov_table gl) adj = Ok (lenN b).
+Proof. exact gpos12_len_agrees. Qed.
+
+(* the records come back up to nil = all-zero (vr_norm): the common value
+   format decides whether nil can be told from a zero record *)
+Theorem gpos1_2_roundtrip :
+  forall gl adj b pre post,
+    strictly_inc gl = true -> glyphs_ok gl = true -> Forall vr_ok adj -> length adj = length gl ->
+    M_gpos12_encode (S_cov_table gl) adj = Ok b ->
+    M_gpos12_read (pre ++ b ++ post) (lenN pre) =
+      Ok (S_cov_pairs gl, map (vr_norm (vr_union adj)) adj).
+Proof. exact gpos12_roundtrip. Qed.
+Print Assumptions gpos1_2_roundtrip.
+
+(* coverage.ReadSet accepts whatever coverage.Read accepts and returns the
+   same glyphs *)
+Theorem coverage_set_of_table :
+  forall data pos l, M_cov_read data pos = Ok l -> M_covset_read data pos = Ok (map fst l).
+Proof. exact covset_of_cov. Qed.
+Print Assumptions coverage_set_of_table.
